@@ -252,6 +252,11 @@ ClockOfMs(ms) == Clock(NearestSecond(ms) % 86400)
 DeltasFor(s) == {dl \in TimeDeltas : 1000 * s + dl >= 0 /\ NearestSecond(1000 * s + dl) < 86400
                                      /\ (dl < 0 => s > 0)}
 
+\* the last half second of a day rounds to 00:00:00 (of the next day): the
+\* clock never shows 24:00:00 or a second 60
+RollDeltas == {501, 600, 750, 999}
+RollOf(s) == IF s = 86399 THEN {<<dl, ClockOfMs(1000 * s + dl)>> : dl \in RollDeltas} ELSE {}
+
 --------------------------------------------------------------------------
 (* YEARFRAC(a, b, basis).  Only symmetry is claimed.  The three day-count  *)
 (* bases whose definition is not disputed are written out (as a fraction   *)
@@ -494,6 +499,7 @@ ClockLaws == mode = "time" =>
   \* every instant closer to second ts than to its neighbours reads the same
   /\ \A dl \in DeltasFor(ts) : ClockOfMs(1000 * ts + dl) = <<th, tm, tsec>>
   /\ 0 \in DeltasFor(ts)
+  /\ \A r \in RollOf(ts) : r[2] = <<0, 0, 0>>
 
 (* Laws -- YEARFRAC symmetry, on the bases that are written out *)
 YearFracSymmetric == [][(mode = "yf" /\ fswap = 0 /\ fswap' = 1 /\ fbasis \in {2, 3, 4})
@@ -530,7 +536,8 @@ Export ==
                         edate   |-> EDateFn(sn, sk)]))
     [] mode = "time" ->
          PrintT(ToJson([t |-> "time", s |-> ts, h |-> th, mi |-> tm,
-                        sec |-> tsec, deltas |-> DeltasFor(ts)]))
+                        sec |-> tsec, deltas |-> DeltasFor(ts),
+                        roll |-> RollOf(ts)]))
     [] mode = "yf" ->
          PrintT(ToJson([t |-> "yf", a |-> fa, b |-> fb, basis |-> fbasis,
                         swapped |-> fswap]))
